@@ -118,7 +118,7 @@ theorem probeF_some (N : Nat) (tm ky : Nat → Nat) (ts key : Nat) (hN : 0 < N) 
       · rw [hp, Nat.mod_add_mod]; congr 1; omega
       · intro e he
         cases e with
-        | zero => simpa [Nat.mod_eq_of_lt hpos] using hb
+        | zero => simpa [Busy, Nat.mod_eq_of_lt hpos] using hb
         | succ e =>
           have := hall e (by omega)
           rw [Nat.mod_add_mod] at this
@@ -141,7 +141,7 @@ theorem probeF_none (N : Nat) (tm ky : Nat → Nat) (ts key : Nat) (hN : 0 < N) 
     split at h
     · rename_i hb
       cases e with
-      | zero => simpa [Nat.mod_eq_of_lt hpos] using hb
+      | zero => simpa [Busy, Nat.mod_eq_of_lt hpos] using hb
       | succ e =>
         have := ih ((pos + 1) % N) (Nat.mod_lt _ hN) h e (by omega)
         rw [Nat.mod_add_mod] at this
@@ -267,7 +267,9 @@ theorem InvF_write {N : Nat} {h tm ky : Nat → Nat} {ts len : Nat} (I : InvF N 
       · simp only [wr, if_true]; exact hpd
       · intro e he
         simp only [wr, if_true]
-        rw [hlive]; right; exact (hall e he).1
+        split
+        · rfl
+        · exact (hall e he).1
     · have hli' : tm i = ts := by simpa [wr, hip] using hli
       obtain ⟨d', hd', hid', hch⟩ := I.chain i hi hli'
       refine ⟨d', hd', ?_, ?_⟩
@@ -290,7 +292,7 @@ theorem InvF_write {N : Nat} {h tm ky : Nat → Nat} {ts len : Nat} (I : InvF N 
       · simp [hip]
     · simp only [hlp, if_false]
       rw [I.count]
-      refine (cnt_set (fun i => tm i == ts) _ N p hpN (by simpa using hlp) (by simp [wr]) ?_)
+      refine (cnt_set (fun i => tm i == ts) (fun i => wr tm p ts i == ts) N p hpN (by simpa using hlp) (by simp [wr]) ?_).symm
       intro i hi
       simp [wr, hi]
   · -- hygiene
